@@ -347,7 +347,9 @@ def expandElementalMassFracsToNuclides(
         expandedNucs = expandElementalNuclideMassFracs(
             element, massFrac, isotopicSubset
         )
-        massFracs.update(expandedNucs)
+        # add to (rather than overwrite) an isotope that is also given explicitly next to its element
+        for nucName, nucMassFrac in expandedNucs.items():
+            massFracs[nucName] = massFracs.get(nucName, 0.0) + nucMassFrac
 
         total = sum(expandedNucs.values())
         if massFrac > 0.0 and abs(total - massFrac) / massFrac > 1e-6:
